@@ -2,6 +2,7 @@ import TracklibVerif.Lemmas.SplitSeg
 import TracklibVerif.Lemmas.SplitUid
 import TracklibVerif.Lemmas.SplitVal
 import TracklibVerif.Lemmas.SplitTrack
+import TracklibVerif.Lemmas.SplitIdx
 /-! # C11 — splitting on a marker partitions the track; markers reflect the thresholds
 
 Property theorems only (helper lemmas are in `Lemmas/Split*.lean`). The models are in `Model/Split.lean`:
@@ -12,6 +13,10 @@ loops of `segmentation()` on exact scalars with NaN = `none`, `segTrack` the who
 `Model/SplitVal.lean`: the same loops with `isnan(v)` and `v <= threshold` as the Python operator calls they are
 (`foldCmpG` … `segTrackG`), and the values a track hands over: numbers or `ObsTime` objects (`Val`; the built-in
 feature `timestamp`), compared with the `ObsTime` operators of `Model/ObsTime.lean`.
+`Model/SplitTrack.lean`: the front end of `split(track, <feature name>)` — the marker read from the feature table BY
+NAME (`FTrack.get`: built-in names, then the dictionary, by the exact string; `== 1` on the cell), `splitTrack` /
+`splitTrackU`, and `segmentation()` followed by `split()` on its output feature (`segSplitTrackG`).
+Index lists: `extract_any` / `split_indices_any` cover every list of integers (negative, descending, out of range).
 All statements hold for every track length, every marker vector, every number of tested features; the
 observations are abstract, so nothing depends on coordinates (NaN, infinite, repeated), timestamps or other features. -/
 namespace TV.C11
@@ -175,6 +180,31 @@ theorem split_indices (short : List β → Bool) (l : List β) (src : List Nat)
     splitIdx short l (src.map (fun (k : Nat) => (k : Int))) = some ((idxPieces l src).filter (fun p => !short p)) ∧
     (idxPieces l src).length = src.length - 1 :=
   ⟨splitIdx_sorted short l src hs hb, idxPieces_length l src⟩
+
+/-- T6 (any integers): `Track.extract(a, b)` raises `IndexError` exactly when some index of `a..b` lies outside
+`[-size, size)` (Python list indexing: a negative index counts from the end); otherwise it returns `b - a + 1`
+observations (none when `a > b`), the `j`-th being `track[a + j]` — so a range that crosses 0 from the negative side
+wraps around from the end of the track to its beginning. -/
+theorem extract_any (l : List β) (a b : Int) :
+    ((extract l a b).isSome = true ↔ ∀ k, a ≤ k → k ≤ b → -(l.length : Int) ≤ k ∧ k < (l.length : Int)) ∧
+    ∀ p, extract l a b = some p →
+      p.length = (b + 1 - a).toNat ∧ ∀ (j : Nat), j < p.length → (p[j]?).map some = some (pyIndex l (a + (j : Int))) :=
+  ⟨extract_isSome l a b, extract_some l a b⟩
+
+/-- T6 (any index list — unsorted, negative, out of range): `split(track, source, limit)` raises `IndexError` exactly
+when one of the ranges `source[i] .. source[i+1]` reaches outside `[-size, size)`; otherwise it returns, in the order of
+the list, the tracks `extract(source[i], source[i+1])` (characterised by `extract_any`; empty for a descending pair)
+that are not `short`. -/
+theorem split_indices_any (short : List β → Bool) (l : List β) (src : List Int) :
+    ((splitIdx short l src).isSome = true ↔
+      ∀ ab ∈ pairs src, ∀ k, ab.1 ≤ k → k ≤ ab.2 → -(l.length : Int) ≤ k ∧ k < (l.length : Int)) ∧
+    ∀ r, splitIdx short l src = some r →
+      ∃ ps, (pairs src).mapM (fun ab => extract l ab.1 ab.2) = some ps ∧ r = ps.filter (fun p => !short p) := by
+  refine ⟨?_, splitIdx_some short l src⟩
+  rw [splitIdx_isSome]
+  constructor
+  · intro h ab hab; exact (extract_isSome l ab.1 ab.2).mp (h ab hab)
+  · intro h ab hab; exact (extract_isSome l ab.1 ab.2).mpr (h ab hab)
 
 /-- T7: `TrackCollection.split_segmentation`: the pieces, taken in order, are the observations of the tracks that
 have at least one marked observation, track after track, each exactly once and in the original order (a track
@@ -824,6 +854,13 @@ example : ((segTrackG Val.isnan Val.le? Val.fmax true
       (.many ["speed", "timestamp"]) "cut" (.many [.num (.fin 5), .time s2])).toOption.map (·.feats))
     = some [("speed", [some (.num (.fin 9)), none, some (.num (.fin 1))]), ("cut", [some 1, some 0, some 1])] := by
   decide +kernel
+-- index lists with Python indexing: negative indices, a descending pair (empty piece), a range wrapping around 0, IndexError
+example : extract [10, 11, 12, 13] (-2) (-1) = some [12, 13] := by decide +kernel
+example : extract [10, 11, 12, 13] (-1) 1 = some [13, 10, 11] := by decide +kernel
+example : extract [10, 11, 12, 13] 2 4 = none := by decide +kernel
+example : splitIdx (fun _ => false) [10, 11, 12, 13] [3, 1, 2, -1] = some [[], [11, 12], []] := by decide +kernel
+example : splitIdx (fun _ => false) [10, 11, 12, 13] [0, 1, 5] = none := by decide +kernel
+example : pairs [3, 1, 2, -1] = [(3, 1), (1, 2), (2, -1)] := by decide
 -- the marker read by NAME: features `speed`, `limit` and a marker called `speed-limit` (speed - limit equals 1 at the
 -- observations 0 and 2, the marker is 1 at 1 only); ` cut` is not `cut`; cells 1.0 / True are 1 by value, 2 and NaN are not
 private def tk : FTrack Val :=
